@@ -411,6 +411,13 @@ func r083(c *Ctx, r *R) {
 			return true
 		})
 		r.Check(shift && usesConv, "pintype:codec", ufd.Pos(), "pin types are stored as a bit index (convertPinType) and restored by 1<<index", "the pin type is no longer stored through convertPinType and restored by 1<<index")
+		// the zero PinType (a Pin built without a type, a record decoded
+		// from a message without one) must come out of the conversion: the
+		// bit-position loop has nothing to find in it
+		if cf0 := c.P.Func("api", "convertPinType"); cf0 != nil {
+			_, _, ok0 := ssaEval(cf0, bindParams(cf0, map[int]constant.Value{0: constant.MakeInt64(0)}))
+			r.Check(ok0, "pintype:zero-terminates", cf0.Pos(), "the conversion of the zero pin type terminates (evaluated)", "convertPinType does not terminate for the zero PinType (the evaluation ran out of steps): serialising a pin without a type hangs the caller - the state write, the Raft apply loop, a snapshot")
+		}
 		for _, k := range declaredConsts(pt) {
 			if k.Name() == "AllType" {
 				continue
